@@ -4,7 +4,7 @@ From Coq Require Import ZArith Bool Ascii String.
 From Coq Require Import List.
 Import ListNotations.
 From Verif Require Import Fmt.TextModel Fmt.TextProofs Fmt.X86FmtModel Fmt.X86FmtProofs Fmt.X86RegTableCheck.
-From Verif Require Import Fmt.X86InstModel Fmt.X86InstProofs Fmt.A64FmtModel Fmt.A64FmtProofs Fmt.A64InstProofs Fmt.LogLine Fmt.LogLineX86 Fmt.LogLineA64 Fmt.LabelVirt Fmt.DataNode Fmt.NodeLine Fmt.InstNamesCheck Fmt.Corollaries Fmt.NameDecode Fmt.X86Explain Fmt.RegList Fmt.RegListQ0 Fmt.RegListQ1 Fmt.RegListQ2 Fmt.RegListQ3.
+From Verif Require Import Fmt.X86InstModel Fmt.X86InstProofs Fmt.A64FmtModel Fmt.A64FmtProofs Fmt.A64InstProofs Fmt.LogLine Fmt.LogLineX86 Fmt.LogLineA64 Fmt.LabelVirt Fmt.DataNode Fmt.NodeLine Fmt.InstNamesCheck Fmt.Corollaries Fmt.NameDecode Fmt.X86Explain Fmt.RegList Fmt.RegListAll Fmt.VirtNames Fmt.FuncValue Fmt.LogOptions Fmt.Directives.
 From VerifGen Require Import X86RegTables InstNames InstNameTables.
 Local Open Scope Z_scope.
 
@@ -274,11 +274,93 @@ Theorem C20_x86_inst_virt_conservative : forall regtype regcasts f i, fmt_inst_v
 Proof. exact fmt_inst_virt_nil. Qed.
 Print Assumptions C20_x86_inst_virt_conservative.
 
-(* AArch32 register lists (arm::FormatterInternal::format_register_list: "{r0-r3, r5, r14}"): for ALL 65536 masks over r0..r15 the printed
-   list parses back to the mask (check_mask m := parse_reglist (fmt_reglist a32_reg m) = Some m, as a boolean; four exhaustive
-   vm_compute sweeps over zrange lo 16384 = [lo; lo+1; …; lo+16383]) *)
-Theorem C20_a32_reglist_roundtrip :
-  forallb check_mask (zrange 0 16384%nat) = true /\ forallb check_mask (zrange 16384 16384%nat) = true /\
-  forallb check_mask (zrange 32768 16384%nat) = true /\ forallb check_mask (zrange 49152 16384%nat) = true.
-Proof. exact (conj reglist_roundtrip_q0 (conj reglist_roundtrip_q1 (conj reglist_roundtrip_q2 reglist_roundtrip_q3))). Qed.
+(* AArch32 register lists (arm::FormatterInternal::format_register_list: "{r0-r3, r5, r14}"): for EVERY mask over r0..r15 the printed
+   list parses back to exactly the mask (lifted from four exhaustive vm_compute sweeps, RegListQ0..Q3, by RegListAll.sweep_in) *)
+Theorem C20_a32_reglist_roundtrip : forall m, 0 <= m < 65536 -> parse_reglist (fmt_reglist a32_reg m) = Some m.
+Proof. exact reglist_roundtrip. Qed.
 Print Assumptions C20_a32_reglist_roundtrip.
+
+(* NAMED virtual registers print their user-chosen name instead of "%<index>".  For an environment whose names are over [A-Za-z0-9_.],
+   are not architectural register names and are pairwise distinct (env_ok), ONE reader recovers from the text of any register
+   operand of a Compiler line what it is: physical (type, id) or virtual (index, shown cast) *)
+Theorem C20_x86_virt_names_roundtrip : forall env regtype regcasts t id, env_ok env -> reg_ok t id ->
+  read_reg env (rp_virt env regtype regcasts t id) = Some (denote env regtype regcasts t id).
+Proof. exact rp_virt_roundtrip. Qed.
+Print Assumptions C20_x86_virt_names_roundtrip.
+
+Theorem C20_x86_virt_names_injective : forall env regtype regcasts t1 id1 t2 id2, env_ok env -> reg_ok t1 id1 -> reg_ok t2 id2 ->
+  rp_virt env regtype regcasts t1 id1 = rp_virt env regtype regcasts t2 id2 ->
+  denote env regtype regcasts t1 id1 = denote env regtype regcasts t2 id2.
+Proof. exact rp_virt_injective. Qed.
+Print Assumptions C20_x86_virt_names_injective.
+
+(* the side conditions cannot be dropped: a virtual register named "rax" prints exactly like the physical rax, two virtual registers with
+   one name print alike, and a name containing '@' imitates the cast suffix of another register *)
+Theorem C20_x86_virt_names_side_conditions :
+  rp_virt [(Some (s "rax"), Gp64)] false false Gp64 256 = rp_virt [(Some (s "rax"), Gp64)] false false Gp64 0 /\
+  rp_virt [(Some (s "t"), Gp64); (Some (s "t"), Gp64)] false false Gp64 256 = rp_virt [(Some (s "t"), Gp64); (Some (s "t"), Gp64)] false false Gp64 257 /\
+  rp_virt [(Some (s "t@gpd"), Gp64); (Some (s "t"), Gp64)] false false Gp64 256 = rp_virt [(Some (s "t@gpd"), Gp64); (Some (s "t"), Gp64)] true false Gp32 257.
+Proof. exact (conj virt_name_collides_phys (conj virt_name_duplicate virt_name_imitates_cast)). Qed.
+Print Assumptions C20_x86_virt_names_side_conditions.
+
+(* FuncNode lines of a Compiler ("L1: int32@eax Func(int32@ecx a0, int32x4@[rdx] <none>, float64@[32] %1)"): every function value -
+   type name, "@" register or "[stack offset]", one more pair of brackets when passed INDIRECTLY (Win64 vectors) - reads back as its type,
+   its indirection flag and its location; x86-64 (System V, Win64, vectorcall) and AArch64 register printers *)
+Theorem C20_x86_func_value_roundtrip : forall v, fvalue_ok _ (fun r => reg_ok (fst r) (snd r)) v ->
+  parse_fvalue parse_reg_name (fmt_fvalue x86_rp v) = Some v.
+Proof. exact x86_fvalue_roundtrip. Qed.
+Print Assumptions C20_x86_func_value_roundtrip.
+
+Theorem C20_a64_func_value_roundtrip : forall v, fvalue_ok _ (fun r => a64_reg_ok (fst r) (snd r) 0) v ->
+  parse_fvalue a64_pr (fmt_fvalue a64_rp v) = Some v.
+Proof. exact a64_fvalue_roundtrip. Qed.
+Print Assumptions C20_a64_func_value_roundtrip.
+
+(* logger options: with any code indentation and any two paddings (0 = the defaults 44 / 26) the logged line still splits back into
+   indentation, instruction text, machine-code column and comment *)
+Theorem C20_log_line_options : forall indent t pad1 pad2 bytes rel imm comment,
+  Forall (fun c => Ascii.eqb c ";"%char = false) t -> starts_nonspace t -> ends_nonspace t ->
+  Forall (fun v => 0 <= v < 256) bytes -> bytes <> [] ->
+  parse_log_line_ind (log_line indent t pad1 pad2 (Some (bytes, rel, imm)) comment) = Some (indent, t, fmt_hexcol bytes rel imm, comment).
+Proof. exact log_line_ind_roundtrip. Qed.
+Print Assumptions C20_log_line_options.
+
+(* without kMachineCode the comment takes the place of the column: "nop ; 90" is both "nop" with comment "90" and "nop" with bytes 90 *)
+Theorem C20_log_line_comment_or_column_refuted :
+  log_line 0 (s "nop") 0 0 None (s "90") = log_line 0 (s "nop") 0 0 (Some ([144], 0%nat, 0%nat)) [].
+Proof. exact comment_or_column_witness. Qed.
+Print Assumptions C20_log_line_comment_or_column_refuted.
+
+(* the non-instruction lines an Assembler logs: ".dq L3" (embed_label), ".dd (L3 - L1)" (embed_label_delta) and "  align 16" read back as the
+   item size, the label ids, the indentation and the alignment; x86 and AArch64 directive words *)
+Theorem C20_embed_label_line : forall a64 sz id, size_ok sz -> id_ok id -> parse_embed_label a64 (fmt_embed_label a64 sz id) = Some (sz, id).
+Proof. exact embed_label_roundtrip. Qed.
+Print Assumptions C20_embed_label_line.
+
+Theorem C20_embed_label_delta_line : forall a64 sz id base, size_ok sz -> id_ok id -> id_ok base ->
+  parse_embed_delta a64 (fmt_embed_delta a64 sz id base) = Some (sz, id, base).
+Proof. exact embed_delta_roundtrip. Qed.
+Print Assumptions C20_embed_label_delta_line.
+
+Theorem C20_align_line : forall indent n, id_ok n -> parse_align_line (fmt_align_line indent n) = Some (indent, n).
+Proof. exact align_line_roundtrip. Qed.
+Print Assumptions C20_align_line.
+
+(* Builder nodes: an EmbedLabelNode prints ".label L<id>" whatever its data size - a 4-byte and an 8-byte embedded label print alike
+   (the Assembler's log line of the same node says ".dd L3" / ".dq L3", C20_embed_label_line) *)
+Theorem C20_embed_label_node_size_refuted : forall f pad inline id, fmt_node f pad (NEmbedLabel id 4) inline = fmt_node f pad (NEmbedLabel id 8) inline.
+Proof. exact embed_label_node_size_lost. Qed.
+Print Assumptions C20_embed_label_node_size_refuted.
+
+(* AArch64 virtual registers: the register type is never printed, whatever the flags (the ARM formatter ignores kRegType / kRegCasts):
+   the w and the x view of one virtual register print alike - known finding C20/a64-virt-reg-size-not-shown *)
+Theorem C20_a64_virt_reg_size_refuted : forall name index, a64_fmt_virt name index AGp32 0 None = a64_fmt_virt name index AGp64 0 None.
+Proof. exact a64_virt_type_not_shown. Qed.
+Print Assumptions C20_a64_virt_reg_size_refuted.
+
+(* the line logged when a label is bound with an inline comment under kMachineCode ("  L5:      ;          | entry": the column is opened and stays
+   empty): indentation, label, empty column and comment are read back, for every label id, indentation and paddings *)
+Theorem C20_label_line : forall indent id pad1 pad2 comment, id_ok id -> comment <> [] ->
+  parse_log_line_ind (label_line indent (label_text id) pad1 pad2 true comment) = Some (indent, label_text id ++ [":"%char], [], comment).
+Proof. exact label_line_roundtrip. Qed.
+Print Assumptions C20_label_line.
